@@ -148,7 +148,7 @@ func execOps(c *core.Ctx, st *core.Stats, p opsParams, ops []opRec, gen *core.Rn
 		switch op.Kind {
 		case "goset":
 			goWrites++
-		case "set", "define", "arraymeth", "set-wrapper", "set-held", "held-write", "delete", "method":
+		case "set", "define", "arraymeth", "regrow", "set-wrapper", "set-held", "held-write", "delete", "method":
 			scriptWrites++
 		}
 		if v == nil {
